@@ -1213,4 +1213,37 @@ std::string check_c06a(Document& doc, const std::string& delivered, bool xml)
     return why;
 }
 
+
+std::string check_c06_block(Document& doc, size_t errors_before, size_t warnings_before, const std::string& text, const std::string& xpath)
+{
+    auto diags = view_diagnostics(doc);  // errors first, then warnings
+    const size_t nerr = doc.get_errors().size();
+    auto lens = line_lengths(text);
+    if (lens.empty())
+        lens.push_back(0);
+    for (size_t i = 0; i < diags.size(); ++i) {
+        const bool is_new = i < nerr ? i >= errors_before : (i - nerr) >= warnings_before;
+        if (!is_new)
+            continue;
+        auto& d = diags[i];
+        std::string where = (d.error ? "error '" : "warning '") + d.msg + "'";
+        // a query parse may re-run the type checker over the model and so re-report errors of other blocks under their
+        // own paths; those are judged where their block is loaded (C06a), not here
+        if (d.path != xpath)
+            continue;
+        if (d.unknown)
+            return where + " has an unknown position";
+        auto in_line = [&](unsigned line, unsigned col) { return line >= 1 && line <= lens.size() && col <= lens[line - 1]; };
+        if (!in_line(d.sline, d.scol))
+            return where + ": start " + std::to_string(d.sline) + ":" + std::to_string(d.scol) + " outside the text (" + std::to_string(lens.size()) +
+                   " lines, line length " + (d.sline >= 1 && d.sline <= lens.size() ? std::to_string(lens[d.sline - 1]) : std::string{"-"}) + ")";
+        if (!in_line(d.eline, d.ecol))
+            return where + ": end " + std::to_string(d.eline) + ":" + std::to_string(d.ecol) + " outside the text (" + std::to_string(lens.size()) +
+                   " lines, line length " + (d.eline >= 1 && d.eline <= lens.size() ? std::to_string(lens[d.eline - 1]) : std::string{"-"}) + ")";
+        if (std::make_pair(d.sline, d.scol) > std::make_pair(d.eline, d.ecol))
+            return where + ": start after end";
+    }
+    return "";
+}
+
 }  // namespace sim
